@@ -100,6 +100,25 @@ def directed_inputs(tier):
         n = 8 + len(body) + k
         hbh = [17, 0, 0xc2, 4, (n >> 24) & 255, (n >> 16) & 255, (n >> 8) & 255, n & 255]
         out.append({'bytes': eth + [0x86, 0xdd] + v6h + hbh + body, 'plan': [['eth', 0, 0], ['ether', 0x86dd, 14], ['ip', 0, 14], ['ipv6', 0, 14]]})
+    # inputs around 2^16 bytes: the largest IPv6 payload length / IPv4 total length values against slices that hold a little less / exactly /
+    # a little more than what they announce (40 + payload length does not fit 16 bits; arithmetic slips only show on slices this long)
+    def filler(n):
+        return [(i * 7 + 3) % 251 for i in range(n)]
+    big = []
+    for pl in ((65496, 65535) if tier == 'quick' else (65495, 65496, 65497, 65500, 65527, 65528, 65534, 65535)):
+        for n in sorted({65535, 65536, 40 + pl - 1, 40 + pl, 40 + pl + 3} if tier == 'quick' else {65534, 65535, 65536, 65537, 40 + pl - 8, 40 + pl - 1, 40 + pl, 40 + pl + 1, 40 + pl + 9}):
+            ul = min(pl, 65535)
+            v6 = [0x60, 0, 0, 0, pl >> 8, pl & 255, 17, 64] + [0xfd] + [0] * 14 + [1] + [0xfd] + [0] * 14 + [2]
+            u = [0, 53, 0x30, 0x39, ul >> 8, ul & 255, 0, 0]
+            big.append((0x86dd, (v6 + u + filler(n - 48))[:n], 'ipv6'))
+    for tl in ((65535,) if tier == 'quick' else (65534, 65535)):
+        for n in (tl - 1, tl, tl + 5):
+            v4 = [0x45, 0, tl >> 8, tl & 255, 0, 1, 0x40, 0, 64, 17, 0, 0, 10, 0, 0, 1, 10, 0, 0, 2]
+            ul = tl - 20
+            u = [0, 53, 0x30, 0x39, ul >> 8, ul & 255, 0, 0]
+            big.append((0x0800, (v4 + u + filler(n - 28))[:n], 'ipv4'))
+    for et, body, kind in big:
+        out.append({'bytes': eth + [et >> 8, et & 255] + body, 'plan': [['eth', 0, 0], ['ether', et, 14], ['ip', 0, 14], [kind, 0, 14]]})
     # Linux SLL: every ARP hardware id the crate has a name for (5 of them are documented as supported) and the neighbours of the supported
     # ones, with an IPv4 / UDP packet behind the header; every packet type 0..=8
     named = list(range(0, 39)) + [256, 257, 258, 259, 260, 264, 270, 271, 272, 280, 512, 513, 516, 517, 518, 519] + list(range(768, 788)) + list(range(800, 806)) + list(range(820, 827))
@@ -166,8 +185,20 @@ def classify(res, events, pid):
 def crash_violations(crashes, pid, inputs_by_id):
     v = []
     for c in crashes:
-        if pid in ('C01', 'C02'):
-            v.append({'class': 'crash|' + c['signal'], 'summary': 'fatal %s while decoding input %s: %s' % (c['signal'], c['id'], c['stderr'][-300:].replace('\n', ' | ')),
+        # a fatal signal is an access outside the input / undefined behaviour caught by a precondition check (C01) and a decoder that did
+        # not return (C02); the entry point that was running gave no answer at all where the reference decoder prescribes one, which also
+        # contradicts the property of its family: strict slicing (C03), header structs (C04), lax decoders (C05)
+        api = (c.get('api') or '').split('|')
+        props = {'C01', 'C02'}
+        if len(api) == 3 and not api[0].startswith('sweep'):
+            if api[1] == 'strict' and api[2] == 'slice':
+                props.add('C03')
+            if api[2] == 'struct':
+                props.add('C04')
+            if api[1] == 'lax':
+                props.add('C05')
+        if pid in props:
+            v.append({'class': 'crash|' + c['signal'], 'summary': 'fatal %s while decoding input %s%s: %s' % (c['signal'], c['id'], (' in ' + api[0]) if api[0] else '', c['stderr'][-300:].replace('\n', ' | ')),
                       'kind': 'decode', 'property': pid, 'tag': 'crash', 'input': inputs_by_id.get(c['id'], {'id': c['id']}), 'stderr': c['stderr']})
     return v
 
